@@ -124,8 +124,6 @@ structure AbOK (g : Cfg) (a : Rec) (tail : Bytes) (pr : Bool) (rest : List HOp) 
   hU : g.U = a.ser ++ tail
   hOt : g.Ot = owedStream g.p.id 5 g.mc g.body
   mode : HMode g pr rest
-  /-- model fuel: `handlerPoll` gets at least `1000 + 4·|input|` units per poll (plus `4·cap`, not used here) -/
-  hfu : alignedBufsize g.b / 32 + 12 ≤ 1000
 
 /-- the handler's failed `readAll` is in the trace; it had collected a prefix of the content sent -/
 def RaEv (g : Cfg) (t : Transport) : Prop :=
@@ -388,8 +386,8 @@ theorem bread_core {g : Cfg} {a : Rec} {tail : Bytes} {pr : Bool} {rest : List H
   have hK := kaok ok
   obtain ⟨G0, hi0⟩ := hs.inv
   have hrl := hi0.rem_leA hK
-  have hfuel := handlerFuel_ge c.env r
-  have hfu := ok.hfu
+  have hfuel := handlerFuel_ge' c.env r
+  have hcapr : r.sp.cap = g.KA.cap := hi0.capK
   have hcapK : g.KA.cap = alignedBufsize g.b := rfl
   have hstep := C07.handler_step c r _ hph
   rcases readAll_runA hK (L := g.L1) (P := []) rest [] prop
